@@ -208,7 +208,7 @@ func meanStage(r *ev.Run) {
 				}
 				want := sum / float64(len(h))
 				got := img.Data[idx]
-				if math.Abs(got.X-want) > 1e-12 || got.X != got.Y || got.Y != got.Z {
+				if !(math.Abs(got.X-want) <= 1e-12) || got.X != got.Y || got.Y != got.Z {
 					r.Violation("sample-mean/"+name, fmt.Sprintf("%s: pixel %d was handed %d samples %v (mean %.6f) but holds %.6f", params, idx, len(h), h, want, got.X), nc)
 					break
 				}
@@ -252,7 +252,7 @@ func closedForms(r *ev.Run) {
 						continue
 					}
 					for i, px := range img.Data {
-						if px.Dist(e) > 1e-9 {
+						if !(px.Dist(e) <= 1e-9) {
 							r.Violation("uniform-emitter/"+name[:strIdx(name, "(")], fmt.Sprintf("%s: pixel %d = %v inside a non-reflecting emitter of radiance %v", nc.Params, i, px, e), nc)
 							break
 						}
@@ -312,7 +312,7 @@ func closedForms(r *ev.Run) {
 							if quad {
 								want = want.Scale(1 / toL.Dot(toL))
 							}
-							if got := img.At(x, y); got.Dist(want) > 1e-9 {
+							if got := img.At(x, y); !(got.Dist(want) <= 1e-9) {
 								r.Violation("matte-plane/"+name[:strIdx(name, "(")], fmt.Sprintf("%s image %dx%d light %v quadratic=%v pixel (%d,%d): %v, diffuse x colour x cos(theta)%s = %v", name, iw, ih, lp, quad, x, y, got, map[bool]string{true: " / d^2", false: ""}[quad], want), ncase{"matte-plane", name, []float64{lp.X, lp.Y, lp.Z}})
 							}
 						}
@@ -348,14 +348,14 @@ func cameraStage(r *ev.Run) {
 					cam := render3d.NewCameraAt(o, tg, fov)
 					r.Eval(1)
 					nc := ncase{"camera", fmt.Sprintf("origin %v target %v fov %g image %gx%g", o, tg, fov, sz[0], sz[1]), nil}
-					if math.Abs(cam.ScreenX.Norm()-1) > 1e-9 || math.Abs(cam.ScreenY.Norm()-1) > 1e-9 || math.Abs(cam.ScreenX.Dot(cam.ScreenY)) > 1e-9 {
+					if !(math.Abs(cam.ScreenX.Norm()-1) <= 1e-9) || !(math.Abs(cam.ScreenY.Norm()-1) <= 1e-9) || !(math.Abs(cam.ScreenX.Dot(cam.ScreenY)) <= 1e-9) {
 						r.Violation("camera/axes", nc.Params+": screen axes are not orthonormal", nc)
 						continue
 					}
 					cast, uncast := cam.Caster(sz[0], sz[1]), cam.Uncaster(sz[0], sz[1])
 					// the centre ray goes to the target
 					ctr := cast(sz[0]/2, sz[1]/2).Normalize()
-					if ctr.Dist(tg.Sub(o).Normalize()) > 1e-9 {
+					if !(ctr.Dist(tg.Sub(o).Normalize()) <= 1e-9) {
 						r.Violation("camera/centre", fmt.Sprintf("%s: the central ray %v does not point at the target", nc.Params, ctr), nc)
 					}
 					for x := 0.0; x <= sz[0]; x++ {
@@ -363,7 +363,7 @@ func cameraStage(r *ev.Run) {
 							for _, depth := range []float64{0.5, 1, 7} {
 								p := o.Add(cast(x, y).Scale(depth))
 								gx, gy := uncast(p)
-								if math.Abs(gx-x) > 1e-9*(1+sz[0]) || math.Abs(gy-y) > 1e-9*(1+sz[1]) {
+								if !(math.Abs(gx-x) <= 1e-9*(1+sz[0])) || !(math.Abs(gy-y) <= 1e-9*(1+sz[1])) {
 									r.Violation("camera/uncast", fmt.Sprintf("%s: Uncaster(origin + %g Caster(%g,%g)) = (%g,%g)", nc.Params, depth, x, y, gx, gy), nc)
 								}
 							}
@@ -522,15 +522,15 @@ func transformStage(r *ev.Run) {
 							if !ok0 {
 								continue
 							}
-							if math.Abs(rc0.Scale-rc1.Scale) > 1e-9*(1+rc0.Scale) {
+							if !(math.Abs(rc0.Scale-rc1.Scale) <= 1e-9*(1+rc0.Scale)) {
 								r.Violation("transformed-object/parameter", fmt.Sprintf("%s: ray %v->%v hits the original at %g, the image ray hits the transformed object at %g", t.name, o, d, rc0.Scale, rc1.Scale), nc)
 								continue
 							}
-							if math.Abs(rc1.Normal.Norm()-1) > 1e-9 {
+							if !(math.Abs(rc1.Normal.Norm()-1) <= 1e-9) {
 								r.Violation("transformed-object/normal-unit", fmt.Sprintf("%s: normal %v is not a unit vector", t.name, rc1.Normal), nc)
 							}
 							if t.normals {
-								if want := t.normal(rc0.Normal).Normalize(); rc1.Normal.Dist(want) > 1e-7 {
+								if want := t.normal(rc0.Normal).Normalize(); !(rc1.Normal.Dist(want) <= 1e-7) {
 									r.Violation("transformed-object/normal", fmt.Sprintf("%s: normal %v, the transformed original normal is %v", t.name, rc1.Normal, want), nc)
 								}
 							}
